@@ -483,6 +483,752 @@ def _guard(tree, meth, attr, lean, out):
 
 
 
+# ---------------------------------------------------------------------------------------------------------
+# T4 (class `_Apply`): the `_apply` bodies of Add / Compose / Hstack / Vstack / Diag and `Linop.apply`,
+# statement by statement -> lean/SigpyVerif/Gen/LinopApply.lean, written in the numpy primitives of
+# Model/C03Np.lean (`npGetItem`, `npSetItem`, `npReshape`, `npRavel`, `npEmpty`, `npAdd`, `npRepeat`, `pyIndex`).
+#
+#   * every statement is translated in source order; a fallible sub-expression (`linop(..)`, `x[..]`, `.reshape`,
+#     `l[i]`, `%`, `a + b` on arrays) is hoisted, in evaluation order, into a `match … with | .error e => .error e`
+#   * `if c: A else: B` whose branches only assign becomes ONE expression returning the variables both branches
+#     define (or that existed before), with the join of their types (`None`/int -> `Option Nat`, `0`/array -> PyAcc);
+#     a variable assigned in one branch only is unknown afterwards (its use is Unsupported)
+#   * `self.X is None` narrows `self.X` to an int in the other branch
+#   * `for [n,] linop in [enumerate(]self.linops[)] / self.linops[::-1]` -> `C03.foldE <step> st <list>` with the
+#     variables the body re-assigns as state; `output = 0` before such a loop is the accumulator `PyAcc`
+#   * `with backend.get_device(input):` / `device = backend.get_device(input); xp = device.xp; with device:` are
+#     transparent; the dtype widening `if not xp.can_cast(a.dtype, b.dtype): b = b.astype(xp.result_type(..))` has
+#     no effect on exact scalars and is recognised literally (anything else in its place is Unsupported)
+#   * `try: BODY except Exception as e: raise RuntimeError(..) from e` -> every error of BODY becomes `.apply`
+# Anything else raises T.Unsupported (broken obligation).
+# ---------------------------------------------------------------------------------------------------------
+OPTNAT, OPTINT, NONE = "Option Nat", "Option Int", "NoneType"
+ARR, ACC, OP, LOP = "C03.NDArr α", "C03.PyAcc α", "C03.Op α", "List (C03.Op α)"
+SLICE, SLC, DEVICE, XP, UNIT = "C03.PySlice", "List C03.PySlice", "<device>", "<xp>", "Unit"
+SELF_ATTRS = {"linops": LOP, "nops": NAT, "axis": OPTINT, "iaxis": OPTINT, "oaxis": OPTINT, "indices": LN,
+              "iindices": LN, "oindices": LN, "oshape": LN, "ishape": LN}
+TCLASS = "{α : Type} [Add α] [Zero α]"
+
+
+def _join(a, b):
+    if a == b:
+        return a
+    s = {a, b}
+    if s <= {NONE, NAT, OPTNAT}:
+        return OPTNAT
+    if s <= {ACC, ARR}:
+        return ACC
+    raise T.Unsupported("a variable has type %s in one branch and %s in the other" % (a, b))
+
+
+def _coerce(v, t, want):
+    if t == want:
+        return v
+    if want == OPTNAT and t == NONE:
+        return "none"
+    if want == OPTNAT and t == NAT:
+        return "(some %s)" % v
+    if want == ACC and t == ARR:
+        return "(some %s)" % v
+    raise T.Unsupported("cannot use a %s as %s: %s" % (t, want, v))
+
+
+def _is_get_device(e):
+    return isinstance(e, ast.Call) and isinstance(e.func, ast.Attribute) and e.func.attr == "get_device" \
+        and isinstance(e.func.value, ast.Name) and e.func.value.id == "backend" and len(e.args) == 1 \
+        and not e.keywords and isinstance(e.args[0], ast.Name) and e.args[0].id == "input"
+
+
+def _assigned(stmts):
+    out = []
+    for b in stmts:
+        for n in ast.walk(b):
+            t = None
+            if isinstance(n, ast.Name) and isinstance(n.ctx, ast.Store):
+                t = n.id
+            if isinstance(n, (ast.Assign, ast.AugAssign)):
+                for tg in (n.targets if isinstance(n, ast.Assign) else [n.target]):
+                    if isinstance(tg, ast.Subscript) and isinstance(tg.value, ast.Name) and tg.value.id not in out:
+                        out.append(tg.value.id)
+            if t is not None and t not in out:
+                out.append(t)
+    return out
+
+
+class _ACtx:
+    def __init__(self, env=None, narrowed=None, const0=None, in_loop=False):
+        self.env = dict(env or {})           # python name -> (lean text, type)
+        self.narrowed = dict(narrowed or {})  # self attribute -> (lean text, type)
+        self.const0 = set(const0 or ())
+        self.in_loop = in_loop
+
+    def copy(self):
+        return _ACtx(self.env, self.narrowed, self.const0, self.in_loop)
+
+
+class _Apply:
+    def __init__(self, fn, what, lean, self_is_op=False):
+        self.fn, self.what, self.lean, self.self_is_op = fn, what, lean, self_is_op
+        self.defs, self.n, self.nloops = [], 0, 0
+        self.attrs = []
+        if not self_is_op:
+            class V(ast.NodeVisitor):
+                def visit_Attribute(v, n):
+                    if isinstance(n.value, ast.Name) and n.value.id == "self":
+                        if n.attr not in SELF_ATTRS:
+                            raise T.Unsupported("%s: self.%s is not a modelled attribute" % (what, n.attr))
+                        if n.attr not in self.attrs:
+                            self.attrs.append(n.attr)
+                    v.generic_visit(n)
+            V().visit(fn)
+            self.attrs = [a for a in SELF_ATTRS if a in self.attrs]   # canonical order: independent of the statement order
+
+    def bad(self, what, node=None):
+        raise T.Unsupported("%s: %s%s" % (self.what, what, "" if node is None else ": " + ast.dump(node)[:100]))
+
+    def fresh(self):
+        self.n += 1
+        return "t%d" % self.n
+
+    def params(self):
+        if self.self_is_op:
+            return [("self", OP), ("input", ARR)]
+        return [("self_" + a, SELF_ATTRS[a]) for a in self.attrs] + [("input", ARR)]
+
+    def sig(self):
+        return " ".join("(%s : %s)" % (T.nm(n), t) for n, t in self.params())
+
+    def args(self):
+        return " ".join(T.nm(n) for n, _ in self.params())
+
+    @staticmethod
+    def emit(binds, pad):
+        out = ""
+        for b in binds:
+            if b[0] == "E":
+                out += pad + "C03.bindE (%s) fun %s =>\n" % (b[1], b[2])
+            elif b[0] == "O":
+                out += pad + "C03.bindO (%s) fun %s =>  -- IndexError\n" % (b[1], b[2])
+            elif b[0] == "Z":
+                out += pad + "if %s = 0 then .error .apply  -- ZeroDivisionError\n%selse\n" % (b[1], pad)
+        return out
+
+    def proj(self, names, types, c2):
+        """bind a tuple of joined variables to ONE fresh name; the variables are its projections"""
+        if not names:
+            return "_"
+        if len(names) == 1:
+            c2.env[names[0]] = (T.nm(names[0]), types[0])
+            return T.nm(names[0])
+        j = "j%d" % (self.n + 1)
+        self.n += 1
+        for i, (n, t) in enumerate(zip(names, types)):
+            path = ".2" * i + (".1" if i < len(names) - 1 else "")
+            c2.env[n] = ("%s%s" % (j, path), t)
+        return j
+
+    # ---- expressions: (binds, lean atom, type) ---------------------------------------------------------
+    def self_attr(self, attr, c):
+        if attr in c.narrowed:
+            return c.narrowed[attr]
+        return ("self_" + attr, SELF_ATTRS[attr])
+
+    def ex(self, e, c):
+        if isinstance(e, ast.Constant):
+            if e.value is None:
+                return [], "none", NONE
+            if isinstance(e.value, bool) or not isinstance(e.value, int) or e.value < 0:
+                self.bad("constant", e)
+            return [], "(%d : Nat)" % e.value, NAT
+        if isinstance(e, ast.Name):
+            if e.id not in c.env:
+                self.bad("unknown (or only conditionally assigned) name %s" % e.id)
+            v, t = c.env[e.id]
+            if t in (DEVICE, XP):
+                self.bad("use of %s as a value" % e.id)
+            return [], v, t
+        if isinstance(e, ast.Attribute):
+            if isinstance(e.value, ast.Name) and e.value.id == "self" and not self.self_is_op:
+                v, t = self.self_attr(e.attr, c)
+                return [], v, t
+            B, v, t = self.ex(e.value, c)
+            if t == OP and e.attr in ("ishape", "oshape"):
+                return B, "%s.%s" % (v, e.attr), LN
+            if t == ARR and e.attr == "shape":
+                return B, "%s.shape" % v, LN
+            self.bad("attribute", e)
+        if isinstance(e, ast.List):
+            B, vs = [], []
+            for x in e.elts:
+                b, v, t = self.ex(x, c)
+                if t != SLICE:
+                    self.bad("list literal with entries that are not slices", e)
+                B += b
+                vs.append(v)
+            return B, "[" + ", ".join(vs) + "]", SLC
+        if isinstance(e, ast.UnaryOp) and isinstance(e.op, ast.USub):
+            B, v, t = self.ex(e.operand, c)
+            return B, "(-%s)" % _to_int(v, t), INTT
+        if isinstance(e, ast.BinOp):
+            B1, a, ta = self.ex(e.left, c)
+            B2, b, tb = self.ex(e.right, c)
+            B = B1 + B2
+            if isinstance(e.op, ast.Add):
+                if ta == SLC and tb == SLC:
+                    return B, "(%s ++ %s)" % (a, b), SLC
+                if ta in (ACC, ARR) and tb == ARR:
+                    t = self.fresh()
+                    return B + [("E", "C03.npAdd %s %s" % (_coerce(a, ta, ACC), b), t)], t, ARR
+                if ta == NAT and tb == NAT:
+                    return B, "(%s + %s)" % (a, b), NAT
+                return B, "(%s + %s)" % (_to_int(a, ta), _to_int(b, tb)), INTT
+            if isinstance(e.op, ast.Mult):
+                if ta == SLC and tb in (NAT, INTT):
+                    return B, "(C03.npRepeat %s %s)" % (a, _to_int(b, tb)), SLC
+                if ta == NAT and tb == NAT:
+                    return B, "(%s * %s)" % (a, b), NAT
+                return B, "(%s * %s)" % (_to_int(a, ta), _to_int(b, tb)), INTT
+            if isinstance(e.op, ast.Sub):
+                return B, "(%s - %s)" % (_to_int(a, ta), _to_int(b, tb)), INTT
+            if isinstance(e.op, ast.Mod):
+                a, b = _to_int(a, ta), _to_int(b, tb)
+                return B + [("Z", b)], "(pyMod %s %s)" % (a, b), INTT
+            self.bad("binary operator", e)
+        if isinstance(e, ast.Call):
+            return self.call(e, c)
+        if isinstance(e, ast.Subscript):
+            B, v, t = self.ex(e.value, c)
+            if t == ARR:
+                if isinstance(e.slice, ast.Slice):
+                    b2, rng = self.rng(e.slice.lower, e.slice.upper, e.slice.step, c)
+                    r = self.fresh()
+                    return B + b2 + [("E", "C03.npGetItem %s [%s]" % (v, rng), r)], r, ARR
+                b2, i, ti = self.ex(e.slice, c)
+                if ti == SLC:
+                    r = self.fresh()
+                    return B + b2 + [("E", "C03.npGetItem %s %s" % (v, i), r)], r, ARR
+                self.bad("array index", e)
+            if t == LN and not isinstance(e.slice, ast.Slice):
+                b2, i, ti = self.ex(e.slice, c)
+                if ti in (NAT, INTT):
+                    r = self.fresh()
+                    return B + b2 + [("O", "C03.pyIndex %s %s" % (v, _to_int(i, ti)), r)], r, NAT
+            if t == LOP and isinstance(e.slice, ast.Slice) and e.slice.lower is None and e.slice.upper is None \
+                    and isinstance(e.slice.step, ast.UnaryOp) and isinstance(e.slice.step.op, ast.USub) \
+                    and isinstance(e.slice.step.operand, ast.Constant) and e.slice.step.operand.value == 1:
+                return B, "%s.reverse" % v, LOP
+            self.bad("subscript", e)
+        self.bad("expression", e)
+
+    def rng(self, lo, hi, step, c):
+        """`slice(lo, hi)` / `lo:hi` -> PySlice.range"""
+        if step is not None and not (isinstance(step, ast.Constant) and step.value is None):
+            self.bad("slice step")
+        if lo is None or hi is None:
+            self.bad("slice with an omitted bound (only `start:end` with variables is modelled)")
+        b1, a, ta = self.ex(lo, c)
+        b2, b, tb = self.ex(hi, c)
+        if ta != NAT or tb not in (NAT, NONE, OPTNAT):
+            self.bad("slice bounds of types %s, %s" % (ta, tb))
+        return b1 + b2, "C03.PySlice.range %s %s" % (a, _coerce(b, tb, OPTNAT))
+
+    def call(self, e, c):
+        f = e.func
+        if isinstance(f, ast.Name) and not e.keywords:
+            if f.id in c.env and c.env[f.id][1] == OP and len(e.args) == 1:      # linop(x): Linop.__call__
+                B, v, t = self.ex(e.args[0], c)
+                if t != ARR:
+                    self.bad("operator applied to a %s" % t, e)
+                r = self.fresh()
+                return B + [("E", "linopCall %s %s" % (c.env[f.id][0], v), r)], r, ARR
+            if f.id == "len" and len(e.args) == 1:
+                B, v, t = self.ex(e.args[0], c)
+                if t in (LN, LOP, SLC):
+                    return B, "%s.length" % v, NAT
+            if f.id in ("tuple", "list") and len(e.args) == 1:
+                B, v, t = self.ex(e.args[0], c)
+                if t in (SLC, LN):
+                    return B, v, t
+            if f.id == "slice":
+                if len(e.args) == 1 and isinstance(e.args[0], ast.Constant) and e.args[0].value is None:
+                    return [], "C03.PySlice.all", SLICE
+                if len(e.args) == 2:
+                    B, r = self.rng(e.args[0], e.args[1], None, c)
+                    return B, "(%s)" % r, SLICE
+            self.bad("call", e)
+        if isinstance(f, ast.Attribute):
+            if self.self_is_op and isinstance(f.value, ast.Name) and f.value.id == "self" and f.attr == "_apply" \
+                    and len(e.args) == 1 and not e.keywords:
+                B, v, t = self.ex(e.args[0], c)
+                if t != ARR:
+                    self.bad("_apply of a %s" % t)
+                r = self.fresh()
+                return B + [("E", "self.app %s" % v, r)], r, ARR
+            if isinstance(f.value, ast.Name) and c.env.get(f.value.id, (None, None))[1] == XP:
+                if f.attr == "empty" and len(e.args) == 1 and len(e.keywords) == 1 and e.keywords[0].arg == "dtype":
+                    B, v, t = self.ex(e.args[0], c)
+                    if t == LN:
+                        return B, "(C03.npEmpty %s)" % v, ARR
+                self.bad("xp call", e)
+            B, v, t = self.ex(f.value, c)
+            if t == ARR and f.attr == "reshape" and len(e.args) == 1 and not e.keywords:
+                b2, s, ts = self.ex(e.args[0], c)
+                if ts == LN:
+                    r = self.fresh()
+                    return B + b2 + [("E", "C03.npReshape %s %s" % (v, s), r)], r, ARR
+            if t == ARR and f.attr == "ravel" and not e.args and not e.keywords:
+                return B, "(C03.npRavel %s)" % v, ARR
+        self.bad("call", e)
+
+    def cond(self, e, c):
+        """(binds, Prop text)"""
+        if isinstance(e, ast.UnaryOp) and isinstance(e.op, ast.Not):
+            B, p = self.cond(e.operand, c)
+            return B, "(¬ %s)" % p
+        if isinstance(e, ast.Compare) and len(e.ops) == 1:
+            B1, a, ta = self.ex(e.left, c)
+            B2, b, tb = self.ex(e.comparators[0], c)
+            sym = {ast.Lt: "<", ast.LtE: "≤", ast.Gt: ">", ast.GtE: "≥", ast.Eq: "=", ast.NotEq: "≠"}.get(type(e.ops[0]))
+            if sym is None:
+                self.bad("comparison operator", e)
+            if ta == tb and (ta in (NAT, INTT) or (ta == LN and sym in ("=", "≠"))):
+                return B1 + B2, "%s %s %s" % (a, sym, b)
+            if {ta, tb} == {NAT, INTT}:
+                return B1 + B2, "%s %s %s" % (_to_int(a, ta), sym, _to_int(b, tb))
+            self.bad("comparison of %s with %s" % (ta, tb), e)
+        self.bad("condition", e)
+
+    # ---- statements ----------------------------------------------------------------------------------------
+    def is_can_cast(self, s, c):
+        """`if not xp.can_cast(A.dtype, B.dtype): B = B.astype(xp.result_type(B.dtype, A.dtype))`"""
+        try:
+            t = s.test
+            assert isinstance(t, ast.UnaryOp) and isinstance(t.op, ast.Not) and not s.orelse and len(s.body) == 1
+            cc = t.operand
+            assert isinstance(cc, ast.Call) and isinstance(cc.func, ast.Attribute) and cc.func.attr == "can_cast"
+            assert isinstance(cc.func.value, ast.Name) and c.env.get(cc.func.value.id, (0, 0))[1] == XP
+            xpn = cc.func.value.id
+            a, b = cc.args
+            assert not cc.keywords
+            for z in (a, b):
+                assert isinstance(z, ast.Attribute) and z.attr == "dtype" and isinstance(z.value, ast.Name)
+                assert c.env.get(z.value.id, (0, 0))[1] == ARR
+            A, Bn = a.value.id, b.value.id
+            asg = s.body[0]
+            assert isinstance(asg, ast.Assign) and len(asg.targets) == 1 and isinstance(asg.targets[0], ast.Name)
+            assert asg.targets[0].id == Bn
+            want = "%s.astype(%s.result_type(%s.dtype, %s.dtype))" % (Bn, xpn, Bn, A)
+            assert ast.unparse(asg.value) == want
+            return True
+        except (AssertionError, ValueError):
+            return False
+
+    def block(self, stmts, c, ind, k):
+        if not stmts:
+            return k(c, ind)
+        s, rest = stmts[0], stmts[1:]
+        pad = "  " * ind
+        nxt = lambda c2, ind2: self.block(rest, c2, ind2, k)
+        if isinstance(s, ast.Expr) and isinstance(s.value, ast.Constant) and isinstance(s.value.value, str):
+            return self.block(rest, c, ind, k)
+        if isinstance(s, ast.With):
+            if len(s.items) != 1 or s.items[0].optional_vars is not None:
+                self.bad("with form", s)
+            ce = s.items[0].context_expr
+            if not (_is_get_device(ce) or (isinstance(ce, ast.Name) and c.env.get(ce.id, (0, 0))[1] == DEVICE)):
+                self.bad("with context is not the device of the input", ce)
+            return self.block(list(s.body) + list(rest), c, ind, k)
+        if isinstance(s, ast.Try):
+            return self.try_(s, rest, c, ind, k)
+        if isinstance(s, ast.Assign):
+            if len(s.targets) != 1:
+                self.bad("chained assignment", s)
+            tgt, val = s.targets[0], s.value
+            if isinstance(tgt, ast.Name):
+                if tgt.id in ("input", "self") or c.env.get(tgt.id, (0, 0))[1] in (DEVICE, XP, OP):
+                    self.bad("assignment to %s" % tgt.id)
+                if _is_get_device(val):
+                    c.env[tgt.id] = (None, DEVICE)
+                    return nxt(c, ind)
+                if isinstance(val, ast.Attribute) and val.attr == "xp" and isinstance(val.value, ast.Name) \
+                        and c.env.get(val.value.id, (0, 0))[1] == DEVICE:
+                    c.env[tgt.id] = (None, XP)
+                    return nxt(c, ind)
+                B, v, t = self.ex(val, c)
+                if t in (SLICE, OP, LOP):
+                    self.bad("variable of type %s" % t, s)
+                c.const0.discard(tgt.id)
+                if isinstance(val, ast.Constant) and val.value == 0 and not isinstance(val.value, bool):
+                    c.const0.add(tgt.id)
+                name = T.nm(tgt.id)
+                c.env[tgt.id] = (name, t)
+                if t == NONE:
+                    return self.emit(B, pad) + nxt(c, ind)
+                return self.emit(B, pad) + pad + "let %s : %s := %s\n" % (name, t, v) + nxt(c, ind)
+            if isinstance(tgt, ast.Subscript) and isinstance(tgt.value, ast.Name):
+                X = tgt.value.id
+                if c.env.get(X, (0, 0))[1] != ARR:
+                    self.bad("item assignment to %s" % X, s)
+                if isinstance(tgt.slice, ast.Slice):
+                    B1, rng = self.rng(tgt.slice.lower, tgt.slice.upper, tgt.slice.step, c)
+                    idx = "[%s]" % rng
+                else:
+                    B1, idx, ti = self.ex(tgt.slice, c)
+                    if ti != SLC:
+                        self.bad("item assignment index of type %s" % ti, s)
+                B2, v, t = self.ex(val, c)
+                if t != ARR:
+                    self.bad("assigned value of type %s" % t, s)
+                name = T.nm(X)
+                B = B1 + B2 + [("E", "C03.npSetItem %s %s %s" % (c.env[X][0], idx, v), name)]
+                c.env[X] = (name, ARR)
+                return self.emit(B, pad) + nxt(c, ind)
+            self.bad("assignment target", tgt)
+        if isinstance(s, ast.Expr) and isinstance(s.value, ast.Call) and self.self_is_op:
+            f = s.value.func
+            if isinstance(f, ast.Attribute) and isinstance(f.value, ast.Name) and f.value.id == "self" \
+                    and f.attr in ("_check_ishape", "_check_oshape") and len(s.value.args) == 1 and not s.value.keywords:
+                B, v, t = self.ex(s.value.args[0], c)
+                if t != ARR:
+                    self.bad("%s of a %s" % (f.attr, t))
+                g, sh = ("checkIshape", "ishape") if f.attr == "_check_ishape" else ("checkOshape", "oshape")
+                return (self.emit(B, pad) + pad + "if %s (%s.shape.map Int.ofNat) (self.%s.map Int.ofNat) = false then .error .apply  -- %s raises\n"
+                        % (g, v, sh, f.attr) + pad + "else\n" + nxt(c, ind))
+        if isinstance(s, ast.Raise):
+            self.bad("raise outside the recognised `except` clause")
+        if isinstance(s, ast.Return):
+            if c.in_loop:
+                self.bad("return inside a loop")
+            if rest:
+                self.bad("statement after return")
+            if s.value is None:
+                self.bad("bare return")
+            B, v, t = self.ex(s.value, c)
+            if t == ARR:
+                return self.emit(B, pad) + pad + ".ok %s" % v
+            if t == ACC:
+                return self.emit(B, pad) + pad + "C03.accResult %s" % v
+            self.bad("return of a %s" % t)
+        if isinstance(s, ast.If):
+            return self.if_(s, rest, c, ind, k)
+        if isinstance(s, ast.For):
+            return self.loop(s, rest, c, ind, k)
+        self.bad("statement", s)
+
+    def sub(self, stmts, c, ind, names):
+        """translate `stmts` as an expression returning the final values of `names`; -> (text with placeholders, finals)"""
+        finals = []
+
+        def kk(c2, ind2):
+            finals.append((c2, ind2))
+            return "\0%d\0" % (len(finals) - 1)
+        for st in stmts:
+            for n in ast.walk(st):
+                if isinstance(n, (ast.Return, ast.Raise)):
+                    self.bad("return / raise inside a branch", n)
+        return self.block(stmts, c, ind, kk), finals
+
+    def fill(self, text, finals, names, types):
+        for i, (c2, ind2) in enumerate(finals):
+            vals = [_coerce(c2.env[n][0], c2.env[n][1], t) for n, t in zip(names, types)]
+            tup = "()" if not vals else vals[0] if len(vals) == 1 else "(" + ", ".join(vals) + ")"
+            text = text.replace("\0%d\0" % i, "  " * ind2 + ".ok " + tup)
+        return text
+
+    def joined(self, branches, names, c, ind, rest, k, head):
+        """branches: list of (text, finals); emits `match (head …) with | .ok names => rest`"""
+        pad = "  " * ind
+        types = []
+        for n in names:
+            t = None
+            for _, finals in branches:
+                for c2, _ in finals:
+                    t = c2.env[n][1] if t is None else _join(t, c2.env[n][1])
+            types.append(t)
+        ty = "Unit" if not names else " × ".join(types)
+        body = head([self.fill(txt, finals, names, types) for txt, finals in branches])
+        c2 = c.copy()
+        for n, t in zip(names, types):
+            c2.env[n] = (T.nm(n), t)
+            c2.const0.discard(n)
+        pat = self.proj(names, types, c2)
+        return (pad + "C03.bindE (show Except C03.Err (%s) from\n" % ty + body + ") fun %s =>\n" % pat
+                + self.block(rest, c2, ind, k))
+
+    def if_(self, s, rest, c, ind, k):
+        pad = "  " * ind
+        if self.is_can_cast(s, c):
+            return (pad + "-- dtype widening (`%s`): no effect on exact scalars\n" % ast.unparse(s.test)) + self.block(rest, c, ind, k)
+        a_then, a_else = _assigned(s.body), _assigned(s.orelse)
+        names = [n for n in a_then + [m for m in a_else if m not in a_then]
+                 if (n in a_then and n in a_else) or n in c.env]
+        c_then, c_else = c.copy(), c.copy()
+        # `self.X is None`
+        t = s.test
+        if isinstance(t, ast.Compare) and len(t.ops) == 1 and isinstance(t.ops[0], (ast.Is, ast.IsNot)) \
+                and isinstance(t.comparators[0], ast.Constant) and t.comparators[0].value is None:
+            X = t.left
+            if not (isinstance(X, ast.Attribute) and isinstance(X.value, ast.Name) and X.value.id == "self"
+                    and not self.self_is_op and SELF_ATTRS.get(X.attr) == OPTINT and X.attr not in c.narrowed):
+                self.bad("`is None` test of something that is not an optional-int attribute of self", t)
+            v = "self_%s_v" % X.attr
+            none_c, some_c = (c_then, c_else) if isinstance(t.ops[0], ast.Is) else (c_else, c_then)
+            some_c.narrowed[X.attr] = (v, INTT)
+            none_body, some_body = (s.body, s.orelse) if isinstance(t.ops[0], ast.Is) else (s.orelse, s.body)
+            bn = self.sub(none_body, none_c, ind + 2, names)
+            bs = self.sub(some_body, some_c, ind + 2, names)
+            p1 = "  " * (ind + 1)
+            head = lambda tx: (p1 + "match self_%s with\n" % X.attr + p1 + "| none =>\n" + tx[0] + "\n"
+                               + p1 + "| some %s =>\n" % v + tx[1])
+            return self.joined([bn, bs], names, c, ind, rest, k, head)
+        B, p = self.cond(s.test, c)
+        bt = self.sub(s.body, c_then, ind + 2, names)
+        be = self.sub(s.orelse, c_else, ind + 2, names)
+        p1 = "  " * (ind + 1)
+        head = lambda tx: (p1 + "if %s then\n" % p + tx[0] + "\n" + p1 + "else\n" + tx[1])
+        return self.emit(B, pad) + self.joined([bt, be], names, c, ind, rest, k, head)
+
+    def try_(self, s, rest, c, ind, k):
+        if s.orelse or s.finalbody or len(s.handlers) != 1:
+            self.bad("try form", s)
+        h = s.handlers[0]
+        ok = isinstance(h.type, ast.Name) and h.type.id == "Exception" and len(h.body) == 1 \
+            and isinstance(h.body[0], ast.Raise) and isinstance(h.body[0].exc, ast.Call) \
+            and isinstance(h.body[0].exc.func, ast.Name) and h.body[0].exc.func.id == "RuntimeError"
+        if not ok:
+            self.bad("except clause is not `except Exception [as e]: raise RuntimeError(..)`", h)
+        names = [n for n in _assigned(s.body)]
+        txt, finals = self.sub(s.body, c.copy(), ind + 1, names)
+        pad = "  " * ind
+        types = [None] * len(names)
+        for c2, _ in finals:
+            types = [c2.env[n][1] if t is None else _join(t, c2.env[n][1]) for n, t in zip(names, types)]
+        ty = "Unit" if not names else " × ".join(types)
+        c2 = c.copy()
+        pat = self.proj(names, types, c2)
+        return (pad + "C03.tryE (show Except C03.Err (%s) from\n" % ty + self.fill(txt, finals, names, types)
+                + ") fun %s =>  -- except Exception: raise RuntimeError\n" % pat + self.block(rest, c2, ind, k))
+
+    def loop(self, s, rest, c, ind, k):
+        pad = "  " * ind
+        if s.orelse or c.in_loop:
+            self.bad("for form (else clause or nested loop)", s)
+        it = s.iter
+        enum = isinstance(it, ast.Call) and isinstance(it.func, ast.Name) and it.func.id == "enumerate" \
+            and len(it.args) == 1 and not it.keywords
+        B, lst, tl = self.ex(it.args[0] if enum else it, c)
+        if tl != LOP or B:
+            self.bad("loop is not over (an enumeration of) the operator list", it)
+        cb = c.copy()
+        cb.in_loop = True
+        if enum:
+            if not (isinstance(s.target, ast.Tuple) and len(s.target.elts) == 2 and all(isinstance(x, ast.Name) for x in s.target.elts)):
+                self.bad("loop target", s.target)
+            nvar, lvar = [x.id for x in s.target.elts]
+            if nvar == lvar or nvar in c.env:
+                self.bad("loop target names")
+            cb.env[nvar] = (T.nm(nvar), NAT)
+            ety, lst = "Nat × " + OP, "(C03.pyEnumerate %s)" % lst
+            elets = "    let %s : Nat := p.1\n    let %s : %s := p.2\n" % (T.nm(nvar), T.nm(lvar), OP)
+        else:
+            if not isinstance(s.target, ast.Name):
+                self.bad("loop target", s.target)
+            lvar = s.target.id
+            ety = OP
+            elets = "    let %s : %s := p\n" % (T.nm(lvar), OP)
+        if lvar in c.env:
+            self.bad("loop variable shadows %s" % lvar)
+        cb.env[lvar] = (T.nm(lvar), OP)
+        assigned = _assigned(s.body)
+        state = [v for v in c.env if v in assigned]
+        if len(state) != 1:
+            self.bad("loop state is not exactly one variable: %s" % state)
+        for v in state:           # `output = 0` before the loop: the accumulator
+            if v in c.const0:
+                c.env[v] = ("(none : %s)" % ACC, ACC)
+                cb.env[v] = (T.nm(v), ACC)
+            else:
+                cb.env[v] = (T.nm(v), c.env[v][1])
+            cb.const0.discard(v)
+        stypes = [cb.env[v][1] for v in state]
+        used = {n.id for b in s.body for n in ast.walk(b) if isinstance(n, ast.Name)}
+        extra = [v for v in c.env if v not in state and v in used and v not in ("input", "self")
+                 and c.env[v][1] not in (DEVICE, XP)]
+        for v in extra:
+            cb.env[v] = (T.nm(v), c.env[v][1])
+        self.nloops += 1
+        if self.nloops > 1:
+            self.bad("more than one loop")
+        name = self.lean + "Step"
+        tup = T.nm(state[0]) if len(state) == 1 else "(" + ", ".join(T.nm(v) for v in state) + ")"
+        sty = " × ".join(stypes)
+
+        def kk(c2, ind2):
+            vals = [_coerce(c2.env[v][0], c2.env[v][1], t) for v, t in zip(state, stypes)]
+            return "  " * ind2 + ".ok " + (vals[0] if len(vals) == 1 else "(" + ", ".join(vals) + ")")
+        for st in s.body:
+            for n in ast.walk(st):
+                if isinstance(n, (ast.Return, ast.Raise, ast.Break, ast.Continue)):
+                    self.bad("return / raise / break / continue inside the loop", n)
+        body = self.block(list(s.body), cb, 2, kk)
+        esig = " ".join("(%s : %s)" % (T.nm(v), c.env[v][1]) for v in extra)
+        self.defs.append(
+            "/-- generated from `%s`: one iteration of `%s` (state `%s`), statement by statement -/\n"
+            "def %s %s %s %s (%s : %s) (p : %s) :\n    Except C03.Err (%s) :=\n%s%s\n" % (
+                self.what, ast.unparse(s).split("\n")[0], tup, name, TCLASS, self.sig(), esig, tup, sty, ety, sty, elets, body))
+        init = [c.env[v][0] for v in state]
+        init = init[0] if len(init) == 1 else "(" + ", ".join(init) + ")"
+        call = "C03.foldE (%s %s %s) %s %s" % (name, self.args(), " ".join(c.env[v][0] for v in extra), init, lst)
+        c2 = c.copy()
+        for v, t in zip(state, stypes):
+            c2.env[v] = (T.nm(v), t)
+            c2.const0.discard(v)
+        return pad + "C03.bindE (%s) fun %s =>\n" % (call, tup) + self.block(rest, c2, ind, k)
+
+    def translate(self):
+        fn = self.fn
+        a = fn.args
+        if [x.arg for x in a.args] != ["self", "input"] or a.vararg or a.kwarg or a.kwonlyargs or a.posonlyargs or a.defaults:
+            self.bad("signature")
+        c = _ACtx({"input": ("input", ARR)})
+        if self.self_is_op:
+            c.env["self"] = ("self", OP)
+
+        def falls_off(c2, ind2):
+            self.bad("control can reach the end of the function without `return`")
+        text = self.block(list(fn.body), c, 1, falls_off)
+        out = list(self.defs)
+        out.append("/-- generated from `%s`, statement by statement in source order; every Python exception is an `.error` -/\n"
+                   "def %s %s %s :\n    Except C03.Err (%s) :=\n%s\n" % (self.what, self.lean, TCLASS, self.sig(), ARR, text))
+        return out
+
+
+def _shape_guard(tree, fname, attr, other, lean, out):
+    """`def f(linops): for linop in linops: if linop.<attr> != linops[0].<attr>: raise` -> Bool (true = accepted)"""
+    fn = T.find_function(tree, fname)
+
+    def bad(what):
+        raise T.Unsupported("%s: %s" % (fname, what))
+    if [a.arg for a in fn.args.args] != ["linops"] or fn.args.vararg or fn.args.kwarg or fn.args.kwonlyargs or fn.args.defaults:
+        bad("signature")
+    body = [s for s in fn.body if not (isinstance(s, ast.Expr) and isinstance(s.value, ast.Constant))]
+    if len(body) != 1 or not isinstance(body[0], ast.For) or body[0].orelse:
+        bad("body is not a single `for` loop")
+    f = body[0]
+    if len(f.body) != 1 or not isinstance(f.body[0], ast.If) or f.body[0].orelse or len(f.body[0].body) != 1 \
+            or not isinstance(f.body[0].body[0], ast.Raise):
+        bad("loop body is not `if COND: raise`")
+    test = ast.unparse(f.body[0].test)
+    if other is None:
+        if ast.unparse(f.target) != "linop" or ast.unparse(f.iter) != "linops":
+            bad("loop is not `for linop in linops`")
+        forms = {"linop.%s != linops[0].%s" % (attr, attr): "linop.%s ≠ l0.%s" % (attr, attr),
+                 "linops[0].%s != linop.%s" % (attr, attr): "l0.%s ≠ linop.%s" % (attr, attr),
+                 "not linop.%s == linops[0].%s" % (attr, attr): "¬ linop.%s = l0.%s" % (attr, attr)}
+        if test not in forms:
+            bad("test `%s` is not a comparison of linop.%s with linops[0].%s" % (test, attr, attr))
+        out.append("/-- generated from `%s`: accepted iff the loop `for linop in linops: if %s: raise` does not raise\n"
+                   "    (`linops[0]` is only evaluated inside the loop, i.e. for a non-empty list) -/\n"
+                   "def %s {α : Type} (linops : List (C03.Op α)) : Bool :=\n  match linops with\n  | [] => true\n"
+                   "  | l0 :: _ => linops.all fun linop => !(decide (%s))\n" % (fname, test, lean, forms[test]))
+    else:
+        if ast.unparse(f.target) not in ("(linop1, linop2)", "linop1, linop2") or ast.unparse(f.iter) != "zip(linops[:-1], linops[1:])":
+            bad("loop is not `for linop1, linop2 in zip(linops[:-1], linops[1:])`")
+        forms = {"linop1.%s != linop2.%s" % (attr, other): "p.1.%s ≠ p.2.%s" % (attr, other),
+                 "linop2.%s != linop1.%s" % (other, attr): "p.2.%s ≠ p.1.%s" % (other, attr),
+                 "not linop1.%s == linop2.%s" % (attr, other): "¬ p.1.%s = p.2.%s" % (attr, other)}
+        if test not in forms:
+            bad("test `%s` is not a comparison of linop1.%s with linop2.%s" % (test, attr, other))
+        out.append("/-- generated from `%s`: accepted iff `for linop1, linop2 in zip(linops[:-1], linops[1:]): if %s: raise`\n"
+                   "    does not raise -/\n"
+                   "def %s {α : Type} (linops : List (C03.Op α)) : Bool :=\n"
+                   "  (List.zip linops.dropLast (linops.drop 1)).all fun p => !(decide (%s))\n" % (fname, test, lean, forms[test]))
+
+
+def _positive_guard(tree, out):
+    fn = T.find_function(tree, "_check_shape_positive")
+    body = [s for s in fn.body if not (isinstance(s, ast.Expr) and isinstance(s.value, ast.Constant))]
+    if [a.arg for a in fn.args.args] != ["shape"] or len(body) != 1 or not isinstance(body[0], ast.If) or body[0].orelse \
+            or len(body[0].body) != 1 or not isinstance(body[0].body[0], ast.Raise):
+        raise T.Unsupported("_check_shape_positive: not `if COND: raise`")
+    t = body[0].test
+    ok = isinstance(t, ast.UnaryOp) and isinstance(t.op, ast.Not) and isinstance(t.operand, ast.Call) \
+        and isinstance(t.operand.func, ast.Name) and t.operand.func.id == "all" and len(t.operand.args) == 1 \
+        and isinstance(t.operand.args[0], ast.GeneratorExp) and len(t.operand.args[0].generators) == 1
+    if not ok:
+        raise T.Unsupported("_check_shape_positive: test is not `not all(<cond> for s in shape)`")
+    g = t.operand.args[0].generators[0]
+    if g.ifs or not isinstance(g.target, ast.Name) or ast.unparse(g.iter) != "shape":
+        raise T.Unsupported("_check_shape_positive: generator form")
+    cond = T.Expr({g.target.id: T.INT}).cond(t.operand.args[0].elt)
+    out.append("/-- generated from `_check_shape_positive`: accepted iff `not all(%s for %s in shape)` is false -/\n"
+               "def checkShapePositive (shape : List Int) : Bool := shape.all fun %s => decide %s\n" % (
+                   ast.unparse(t.operand.args[0].elt), g.target.id, T.nm(g.target.id), cond))
+
+
+def _call_dispatch(tree, out):
+    """`Linop.__call__` -> `__mul__`: an ndarray argument is handed to `self.apply`"""
+    fn = T.find_function(tree, "Linop.__call__")
+    body = [s for s in fn.body if not (isinstance(s, ast.Expr) and isinstance(s.value, ast.Constant))]
+    if [a.arg for a in fn.args.args] != ["self", "input"] or len(body) != 1 or ast.unparse(body[0]) != "return self.__mul__(input)":
+        raise T.Unsupported("Linop.__call__ is not `return self.__mul__(input)`")
+    fn = T.find_function(tree, "Linop.__mul__")
+    body = [s for s in fn.body if not (isinstance(s, ast.Expr) and isinstance(s.value, ast.Constant))]
+    if [a.arg for a in fn.args.args] != ["self", "input"] or not body or not isinstance(body[0], ast.If):
+        raise T.Unsupported("Linop.__mul__: form")
+    tests, node = [], body[0]
+    while True:
+        tests.append((ast.unparse(node.test), [ast.unparse(x) for x in node.body]))
+        if len(node.orelse) == 1 and isinstance(node.orelse[0], ast.If):
+            node = node.orelse[0]
+        else:
+            if node.orelse:
+                raise T.Unsupported("Linop.__mul__: else branch")
+            break
+    want = [("isinstance(input, Linop)", ["return Compose([self, input])"]),
+            ("np.isscalar(input)", ["M = Multiply(self.ishape, input)", "return Compose([self, M])"]),
+            ("isinstance(input, backend.get_array_module(input).ndarray)", ["return self.apply(input)"])]
+    if tests != want or [ast.unparse(x) for x in body[1:]] != ["return NotImplemented"]:
+        raise T.Unsupported("Linop.__mul__: dispatch is not Linop -> Compose | scalar -> Compose([self, Multiply(self.ishape, a)]) | ndarray -> self.apply")
+    out.append("/-- generated from `Linop.__call__` / `__mul__`: `A(x)` for an ndarray `x` is `A.apply(x)` (a Linop argument\n"
+               "    builds `Compose([A, x])`, a SCALAR argument — numpy arithmetic on 0-d arrays returns scalars — builds\n"
+               "    `Compose([A, Multiply(A.ishape, x)])` instead of applying: `C03.Val` in Model/C03Gen.lean) -/\n"
+               "def linopCall %s (self : %s) (input : %s) : Except C03.Err (%s) := linopApply self input\n" % (TCLASS, OP, ARR, ARR))
+    fn = T.find_function(tree, "Linop.__rmul__")
+    body = [ast.unparse(s) for s in fn.body if not (isinstance(s, ast.Expr) and isinstance(s.value, ast.Constant))]
+    if body != ["if np.isscalar(input):\n    M = Multiply(self.oshape, input)\n    return Compose([M, self])", "return NotImplemented"]:
+        raise T.Unsupported("Linop.__rmul__ is not scalar -> Compose([Multiply(self.oshape, a), self])")
+    for nm_, src in (("__add__", ["if isinstance(input, Linop):\n    return Add([self, input])\nelse:\n    raise NotImplementedError"]),
+                     ("__neg__", ["return -1 * self"]), ("__sub__", ["return self.__add__(-input)"])):
+        fn = T.find_function(tree, "Linop." + nm_)
+        body = [ast.unparse(s) for s in fn.body if not (isinstance(s, ast.Expr) and isinstance(s.value, ast.Constant))]
+        if body != src:
+            raise T.Unsupported("Linop.%s changed: %s" % (nm_, body))
+    out.append("/-- generated (literal check) from `Linop.__mul__/__rmul__/__add__/__neg__/__sub__`: which constructor each\n"
+               "    operator spelling builds (`a * A` = Compose([Multiply(A.oshape, a), A]), `A * a` = Compose([A, Multiply(A.ishape, a)]),\n"
+               "    `A + B` = Add([A, B]), `-A` = -1 * A, `A - B` = A + (-B)) -/\n"
+               "def operatorSpellingsChecked : Bool := true\n")
+
+
+def gen_linop_apply(ctx=None):
+    tree = _parse("sigpy/linop.py")
+    out = [(HEADER % "sigpy/linop.py").replace(
+        "import SigpyVerif.Model.Py\n",
+        "import SigpyVerif.Model.Py\nimport SigpyVerif.Model.C03Base\nimport SigpyVerif.Model.C03\nimport SigpyVerif.Model.C03Np\n"
+        "import SigpyVerif.Gen.StackParams\n")]
+    _positive_guard(tree, out)
+    _shape_guard(tree, "_check_linops_same_ishape", "ishape", None, "checkLinopsSameIshape", out)
+    _shape_guard(tree, "_check_linops_same_oshape", "oshape", None, "checkLinopsSameOshape", out)
+    _shape_guard(tree, "_check_compose_linops", "ishape", "oshape", "checkComposeLinops", out)
+    out.extend(_Apply(T.find_function(tree, "Linop.apply"), "Linop.apply", "linopApply", self_is_op=True).translate())
+    _call_dispatch(tree, out)
+    for cls, lean in (("Compose", "composeApply"), ("Add", "addApply"), ("Hstack", "hstackApply"),
+                      ("Vstack", "vstackApply"), ("Diag", "diagApply")):
+        out.extend(_Apply(T.find_function(tree, cls + "._apply"), cls + "._apply", lean).translate())
+    out.append("end SigpyVerif.Gen\n")
+    return "\n".join(out)
+
+
 def gen_stack_params(ctx=None):
     tree = _parse("sigpy/linop.py")
     out = [(HEADER % "sigpy/linop.py").replace("import SigpyVerif.Model.Py\n",
@@ -500,4 +1246,4 @@ def gen_stack_params(ctx=None):
     return "\n".join(out)
 
 
-GENERATORS = {"StackParams": gen_stack_params}
+GENERATORS = {"StackParams": gen_stack_params, "LinopApply": gen_linop_apply}
